@@ -425,6 +425,12 @@ def generate(src):
     run_prepare()
 
     # =====================================================================  signal handler: puts exactly the configured action, nothing else  [C17/C18]
+    # the handler is inherited by forked workers until they install their own: whether the CURRENT process is a worker must be asked when the signal
+    # arrives (inside the handler), not when the handler was built (in the manager, where the answer is always "no")
+    GSH = src.func(REL, 'get_signal_handler')
+    outer_calls = [ast.unparse(n_.func) for st_ in GSH.body if not isinstance(st_, (ast.FunctionDef, ast.AsyncFunctionDef)) for n_ in ast.walk(st_) if isinstance(n_, ast.Call)]
+    oblige(State(), "get_signal_handler/closure: the process identity is read when the signal arrives, not captured when the handler is built (a forked worker inherits the handler)  [C18]",
+           BoolVal(not any('current_process' in c or 'getpid' in c for c in outer_calls)), props=['C18'])
     def run_sighandler():
         sts = State(); sts.env = {'signum': fresh('signum'), '_frame': fresh('frame'), 'action_queue': PyObj(Int('queue_addr')), 'action_to_send': fresh('action_to_send')}
         sts.ghost = dict(puts=IntVal(0), put_what=Val.none); in_worker = Bool('current_process_is_worker')
@@ -439,7 +445,10 @@ def generate(src):
             oblige(s, "_signal_handler/post: in the manager it enqueues exactly the configured action, once  [C17/C18]", And(Not(in_worker), s.ghost['puts'] == 1, s.ghost['put_what'] == to_val(sts.env['action_to_send'])))
             reach(s, "_signal_handler/reach@return")
         exs.run(SIGH, sts, s_ret, lambda s, x: oblige(s, "_signal_handler/raises: KeyboardInterrupt only inside a worker process, enqueuing nothing  [C18]", And(in_worker, s.ghost['puts'] == 0)))
-    run_sighandler()
+    try: run_sighandler()
+    except Unsupported:
+        # a handler whose decision was hoisted into the factory cannot be executed on its own; the closure obligation above already reports that shape
+        if not any('current_process' in c or 'getpid' in c for c in outer_calls): raise
     # =====================================================================  __init__ wiring: SIGINT/SIGTERM -> Shutdown, SIGHUP -> ReloadAll, workers starts empty  [C18]
     def run_init():
         regs = {}
